@@ -1,5 +1,6 @@
 import TflModel.Model.Wire
 import TflModel.Model.PwlEval
+import TflModel.Model.Categorical
 /-! Driver ops for `Tfl.PwlEval` (`pwl.*`). -/
 namespace Tfl.Driver.PwlEval
 open Tfl Tfl.Wire Tfl.PwlEval
@@ -74,6 +75,34 @@ def handlers : List (String × Handler) := [
       let kernel ← parseRats kernel; let ws ← parseRats ws
       let cfg := mkCfg kps learned cyclic false none
       pure s!"{showRats (keypointsInputs cfg ws)} {showRats (keypointsOutputs cfg kernel)}"
+    | _ => none),
+  -- pwl.layerout = pwl.layer with a trailing <split_outputs> flag -> for every example the tensors `call`
+  --   returns (`layerOutput`: the row, or `units` one-entry rows when units > 1 and split_outputs), rows
+  --   `;`-separated, examples `|`-separated
+  ("pwl.layerout", fun args => match args with
+    | [kps, learned, cyclic, impute, miv, kernels, wss, mouts, xs, ms, split] => do
+      let kps ← parseRats kps; let learned ← parseBool learned; let cyclic ← parseBool cyclic
+      let impute ← parseBool impute; let miv ← parseOptRat miv; let kernels ← parseList2 parseRat kernels
+      let wss ← parseList2 parseRat wss; let mouts ← parseRats mouts; let xs ← parseList2 parseRat xs
+      let ms ← if ms = "none" then some none else (parseList2 parseRat ms).map some
+      let split ← parseBool split
+      match ms with
+      | some l => if l.length ≠ xs.length then none else pure ()
+      | none => pure ()
+      pure (match layerBatch (mkCfg kps learned cyclic impute miv) kernels wss mouts xs ms with
+        | .ok l => "|".intercalate (l.map (fun row => showRats2 (layerOutput kernels.length split row)))
+        | .error e => showErr e)
+    | _ => none),
+  -- cat.layer <kernel columns u;u;..> <default|none> <input rows b;b;.. (ints)> -> output rows b;b;..
+  --   (`CategoricalCalibration.call`, all units; the first error wins)
+  ("cat.layer", fun args => match args with
+    | [kernels, d, xs] => do
+      let kernels ← parseList2 parseRat kernels
+      let d ← if d = "none" then some none else d.toInt?.map some
+      let xs ← parseList2 (fun s => s.toInt?) xs
+      pure (match xs.mapM (Tfl.Categorical.callUnits kernels d) with
+        | .ok l => showRats2 l
+        | .error e => showErr e)
     | _ => none)
 ]
 end Tfl.Driver.PwlEval
